@@ -265,7 +265,7 @@ def system_ops():
 
 def bad_calls():
     """deliberately ill-formed calls: each must raise, and leave every array involved exactly as it was"""
-    from flodym import FlodymArray, Dimension, DimensionSet, StockArray
+    from flodym import FlodymArray, Dimension, DimensionSet, StockArray, Parameter, Flow, Process
 
     B = {}
     B["ctor_transposed_shape"] = lambda E: FlodymArray(dims=E.y.dims, values=np.transpose(E.y.values))
@@ -301,6 +301,11 @@ def bad_calls():
         # (a one-item dimension on the *right* is broadcast by numpy into a result with the left operand's dims: the shape
         #  invariant holds and nothing has to raise, so that case is not among the ill-formed calls)
         B[f"{opn}_same_letter_other_length"] = (lambda E, op=op: op(E.x, _other(E, ["a1", "a2", "a3"])))
+    # the same dimension requested twice (by letter twice, by letter and by name): no array over repeated letters may come out
+    B["from_dims_superset_repeated_letter"] = lambda E: FlodymArray.from_dims_superset(E.full, ("a", "a"))
+    B["from_dims_superset_letter_and_name"] = lambda E: Parameter.from_dims_superset(E.full, ("a", "b", "Alpha"))
+    B["array_over_subset_with_repeated_letter"] = lambda E: FlodymArray(dims=E.full["a", "b", "a"])
+    B["flow_over_subset_with_repeated_letter"] = lambda E: Flow(dims=E.full.get_subset(("t", "Time")), from_process=Process(name="sysenv", id=0), to_process=Process(name="use", id=1))
     B["set_values_zero_dim_ndarray"] = lambda E: E.x.set_values(np.asarray(E.x.values[0, 0]).reshape(()))
     B["setitem_whole_zero_dim_ndarray"] = lambda E: E.x.__setitem__(Ellipsis, E.x.sum_to(()).values)
     B["ctor_zero_dim_ndarray_for_1d"] = lambda E: FlodymArray(dims=E.prm.dims, values=np.asarray(E.prm.values[0]).reshape(()))
@@ -323,6 +328,9 @@ def bad_stock_calls():
     B["stock_array_other_items"] = lambda E: SimpleFlowDrivenStock(dims=E.tx.dims, outflow=StockArray(dims=other_time(E, [1990, 1991, 1993])))
     B["stock_array_prefix_dims"] = lambda E: SimpleFlowDrivenStock(dims=E.tx.dims, inflow=StockArray(dims=E.ds("t")))
     B["stock_array_extended_dims"] = lambda E: SimpleFlowDrivenStock(dims=E.tx.dims, outflow=StockArray(dims=E.ds("tab")))
+    B["dsm_time_not_first_lifetime_class"] = lambda E: InflowDrivenDSM(dims=E.ds("at"), lifetime_model=FixedLifetime)
+    B["dsm_time_not_first_lifetime_instance"] = lambda E: InflowDrivenDSM(dims=E.ds("at"), lifetime_model=FixedLifetime(dims=E.ds("at"), mean=2.0))
+    B["sdsm_time_not_first"] = lambda E: StockDrivenDSM(dims=E.ds("at"), lifetime_model=NormalLifetime, stock=StockArray(dims=E.ds("at")))
     B["dsm_lifetime_prefix_dims"] = lambda E: InflowDrivenDSM(dims=E.tx.dims, lifetime_model=FixedLifetime(dims=E.ds("t"), mean=2.0))
     B["dsm_lifetime_extended_dims"] = lambda E: StockDrivenDSM(dims=E.tx.dims, lifetime_model=FixedLifetime(dims=E.ds("tab"), mean=2.0))
     B["stock_array_same_items_other_order"] = lambda E: SimpleFlowDrivenStock(dims=E.tx.dims, inflow=StockArray(dims=DimensionSet(dim_list=[E.D["t"], Dimension(name="Alpha", letter="a", items=["a2", "a1"])])))
